@@ -64,6 +64,8 @@ namespace sim
 			{
 				++last_executed;
 				if (verif::step_hook) verif::step_hook(verif::after_handler);
+				// the hook may have posted work after the queue ran dry
+				m_service.restart();
 			}
 			if (verif::step_hook) verif::step_hook(verif::before_advance);
 #else
